@@ -30,6 +30,11 @@ type replayJob struct {
 func (j *replayJob) confirms() bool {
 	switch j.viol.Kind {
 	case "panic":
+		if strings.HasPrefix(j.viol.Tag, "fatal error: stack overflow") && j.outcome == "hang" {
+			// unbounded recursion that has not yet exhausted the native 1 GB
+			// stack after 20 s: no result either way
+			return true
+		}
 		return j.outcome == "panic"
 	case "assert":
 		if strings.HasPrefix(j.viol.Tag, "no-unsynchronised-write-to-package-level-state") {
